@@ -291,6 +291,13 @@ def sweep(tier):
             cases.append({'k': 'cstr', 'pos': pos, 'data': pre + body + b'\x00junk\x00'})
             cases.append({'k': 'cstr', 'pos': pos, 'data': pre + body + b'\x00'})
             cases.append({'k': 'cstr', 'pos': pos, 'data': pre + body})
+    # ... and around every power of two up to 128 KiB (whatever the size of the reader's buffer is, a string may cross it several times)
+    for k in range(9, 18):
+        for ln in ((1 << k) - 1, 1 << k, (1 << k) + 1):
+            body = bytes((1 + (i * 11 + ln) % 255) for i in range(ln))
+            for pos in (0, 5):
+                cases.append({'k': 'cstr', 'pos': pos, 'data': b'\x00' * pos + body + b'\x00tail\x00'})
+            cases.append({'k': 'cstr', 'pos': 0, 'data': body})
     # initial length classes
     for le in (True, False):
         bo = 'little' if le else 'big'
@@ -338,6 +345,13 @@ def sweep(tier):
                     for cut in sorted({0, 1, len(hdr) - 1, len(hdr), len(full) - 1} - {len(full)}):
                         if 0 <= cut < len(full):
                             cases.append({'k': 'block', 'le': le, 'form': form, 'data': full[:cut]})
+            # declared lengths at the sign and width boundaries of the length field, far beyond the bytes that follow
+            for ln in (0x7f, 0x80, 0xff, 0x7fff, 0x8000, 0xffff, 0x7fffffff, 0x80000000, 0x80000010, 0xffffffff, 1 << 32, 1 << 63, (1 << 64) - 1):
+                if w and ln >= (1 << (8 * w)):
+                    continue
+                hdr = ln.to_bytes(w, bo) if w else leb.uleb(ln)
+                for tail in (b'', b'\x01\x02\x03'):
+                    cases.append({'k': 'block', 'le': le, 'form': form, 'data': hdr + tail})
     for t in (0, 0xff):
         for ln in (0, 1, 5, 64, 200):
             body = bytes(1 + (i % 200) for i in range(ln))
